@@ -436,6 +436,21 @@ func c14Gen(g *G) {
 		g.Emit("c14.classify "+c14Esc(c14Render(s, c14Layout{}, r)), "classify")
 	}
 	// (5) the real generator: byte identity of two runs, compilation, declarations
+	// … first on schemas in which every type has a constructor that is the type's own name in another
+	// spelling (all lower case, snake case, another inner capitalisation, first letter lowered) — in enums,
+	// single-constructor and multi-constructor types
+	for i, n := 0, g.N(3, 14); i < n; i++ {
+		o := c14GenOpts{forGen: true, size: 12, tricky: i%2 == 1, spell: true}
+		if i == 0 { // a small one first: three multi-constructor types, one per spelling that is not the usual one
+			o.size, o.spellIface = 3, true
+		}
+		s, _ := c14RandSchema(r, o)
+		exp := c14ExpectDecls(s)
+		if exp == "" {
+			exp = "="
+		}
+		g.Emit(fmt.Sprintf("c14.gen spell%d %s %s", i, c14Esc(c14Render(s, c14Layout{}, r)), exp), "generate", "generate-spellings")
+	}
 	for i, n := 0, g.N(12, 100); i < n; i++ {
 		o := c14GenOpts{forGen: true, size: 2 + r.Intn(9), tricky: i%2 == 0, clash: i%3 != 2}
 		s, _ := c14RandSchema(r, o)
